@@ -26,6 +26,7 @@ import (
 	"github.com/oxia-db/oxia/common/concurrent"
 	"github.com/oxia-db/oxia/common/process"
 	time2 "github.com/oxia-db/oxia/common/time"
+	"github.com/oxia-db/oxia/common/vhook"
 
 	"github.com/oxia-db/oxia/proto"
 )
@@ -139,6 +140,10 @@ func (t *notificationsTrimmer) trimNotifications() error {
 	trimOffset, err := t.binarySearch(first, last, cutoffTime)
 	if err != nil {
 		return errors.Wrap(err, "failed to perform binary search")
+	}
+
+	if vhook.Enabled {
+		vhook.At("notif.trim.before-delete", t.kv, first, trimOffset, last)
 	}
 
 	wb := t.kv.NewWriteBatch()
